@@ -369,8 +369,17 @@ def r_ptb(repo, rep, writer_only=False, RT='R20.6', RE='R20.5'):
                 continue
             l_, r_ = b['left'], b['right']
             detail = 'left=%s right=%s' % (show(l_)[:40], show(r_)[:40])
-            if l_[0] == 'unpack' and r_[0] == 'unpack' and l_[1] == r_[1] and (l_[2], r_[2]) == (1, 0):
-                okord = True
+            if l_[0] == 'unpack' and r_[0] == 'unpack' and l_[1] == r_[1]:
+                # the popped list may be put back into reading order first: children.reverse(); left, right = children
+                flips = len([e for e in st.events if e[0] == 'call' and e[1][1] == A(l_[1], 'reverse') and not e[1][2]])
+                base_ = l_[1]
+                if base_[0] == 'call' and base_[1] in (N('reversed'),) and len(base_[2]) == 1:
+                    flips += 1
+                if base_[0] == 'sub' and base_[2] == ('slice', None, None, C(-1)):
+                    flips += 1
+                want_ = (1, 0) if flips % 2 == 0 else (0, 1)
+                if (l_[2], r_[2]) == want_:
+                    okord = True
     rep.check(okord, 'R20.6', wr, '_parse_ptb:child-order', 'children popped from the stack (right first) are attached as left = second popped, right = first popped',
               'children are attached in popped order without reversal: %s' % detail)
 
